@@ -58,6 +58,7 @@ def run(ctx):
     S.session_fresh(ctx, L)
     ctx.rule("R-DT-MINLEN", "FD.TP.DT frames with header + 1..60 data bytes are not dropped by the length test", floor=1)
     S.dt_minlen(ctx, L)
+    S.cm_minlen(ctx, L)
     ctx.rule("R-REPLY-ARMS", "CTS with a grant stores window end, sending state, immediate deadline and wakes the job thread; the end-of-message acknowledge tells the listeners and finishes the session", floor=2)
     S.reply_arms(ctx, L)
     ctx.rule("R-FD-SENDER", "job pass: each segment sent advances the index; the end-of-message status follows the last segment / ends a broadcast", floor=3)
